@@ -362,3 +362,70 @@ EQUIVALENTS.append({
         {'path': GWF, 'old': "def early_checks(job):\n",
          'new': "def _pre(job):\n    early_checks(job)\n\n\n"
                 "def early_checks(job):\n"}]})
+
+# ------------------------------------------------------------------- C11
+mut('C11', 'jira-after-branches', GWF,
+    "    check_branch_compatibility(job)\n    jira_checks(job)\n\n    check_integration_branches(job)\n    wbranches = list(create_integration_branches(job))\n",
+    "    check_branch_compatibility(job)\n\n    check_integration_branches(job)\n    wbranches = list(create_integration_branches(job))\n    jira_checks(job)\n")
+mut('C11', 'jira-removed', GWF, "    jira_checks(job)\n", "")
+mut('C11', 'extra-early-return', JIRA,
+    "    if not check_issue_reference(job):\n        return\n",
+    "    if not check_issue_reference(job):\n        return\n"
+    "    if job.settings.approve:\n        return\n")
+mut('C11', 'issue-type-dropped', JIRA,
+    "    check_project(job, issue)\n    check_issue_type(job, issue)\n",
+    "    check_project(job, issue)\n")
+mut('C11', 'version-check-inverted', JIRA,
+    "    if not job.settings.disable_version_checks:\n        check_fix_versions(job, issue)",
+    "    if job.settings.disable_version_checks:\n        check_fix_versions(job, issue)")
+mut('C11', 'shared-exception', JIRA,
+    "        raise exceptions.IssueTypeNotSupported(\n            issue=issue, pairs=prefixes, active_options=job.active_options\n        )",
+    "        raise exceptions.IncorrectJiraProject(\n            issue=issue, expected_project='', active_options=job.active_options\n        )")
+mut('C11', 'project-not-upper', BRANCHES,
+    "            self.jira_project = self.jira_project.upper()",
+    "            self.jira_project = self.jira_project")
+mut('C11', 'config-any-instead-of-all', JIRA,
+    "    if not all([job.settings.jira_keys,", "    if not any([job.settings.jira_keys,")
+mut('C11', 'config-only-keys', JIRA,
+    "    if not all([job.settings.jira_keys,\n                job.settings.jira_email,\n                job.settings.jira_account_url]):",
+    "    if not all([job.settings.jira_keys]):")
+mut('C11', 'ticketless-first-target-only', JIRA,
+    "        for dst_branch in job.git.cascade.dst_branches:\n            if not dst_branch.allow_ticketless_pr:",
+    "        for dst_branch in job.git.cascade.dst_branches[:1]:\n            if not dst_branch.allow_ticketless_pr:")
+mut('C11', 'ticketless-return-in-loop', JIRA,
+    "                    active_options=job.active_options\n                )\n        return False\n    return True",
+    "                    active_options=job.active_options\n                )\n            return False\n        return False\n    return True")
+mut('C11', 'dev-allows-ticketless', BRANCHES,
+    "    has_stabilization = False\n    latest_minor = -1\n",
+    "    has_stabilization = False\n    latest_minor = -1\n    allow_ticketless_pr = True\n")
+mut('C11', 'filter-accepts-suffix', JIRA,
+    "r'^\\d+\\.\\d+\\.\\d+(\\.0|)$'", "r'^\\d+\\.\\d+\\.\\d+(\\.0|)'")
+mut('C11', 'filter-accepts-any-hf', JIRA,
+    "r'^\\d+\\.\\d+\\.\\d+(\\.0|)$'", "r'^\\d+\\.\\d+\\.\\d+(\\.\\d+|)$'")
+mut('C11', 'hf-filter-three-numbers', JIRA,
+    "r'^\\d+\\.\\d+\\.\\d+\\.\\d+$'", "r'^\\d+\\.\\d+\\.\\d+$'")
+mut('C11', 'versions-subset', JIRA,
+    "    elif checked_versions != expected_versions:",
+    "    elif not checked_versions >= expected_versions:")
+mut('C11', 'hf-target-in-checked', JIRA,
+    "        if hf_target not in issue_versions:",
+    "        if hf_target not in checked_versions:")
+mut('C11', 'not-found-for-all-errors', JIRA,
+    "        if err.status_code == 404:\n            raise exceptions.JiraIssueNotFound(",
+    "        if err.status_code >= 400:\n            raise exceptions.JiraIssueNotFound(")
+mut('C11', 'jira-error-swallowed', JIRA,
+    "            ) from err\n        raise\n", "            ) from err\n        return None\n")
+mut('C11', 'bypass-prefix-on-dst', JIRA,
+    "    if job.git.src_branch.prefix in job.settings.bypass_prefixes:",
+    "    if job.git.dst_branch.prefix in job.settings.bypass_prefixes:")
+mut('C11', 'jira-checks-comments', JIRA,
+    "    issue = get_jira_issue(job)\n",
+    "    issue = get_jira_issue(job)\n    job.pull_request.add_comment('checking %s' % issue.key)\n")
+mut('C11', 'wrong-issue-passed', JIRA,
+    "    check_project(job, issue)\n",
+    "    check_project(job, None)\n")
+mut('C11', 'duplicate-code', EXC,
+    "class IncorrectFixVersion(TemplateException):\n    code = 112",
+    "class IncorrectFixVersion(TemplateException):\n    code = 110")
+mut('C11', 'missing-template', EXC,
+    "    template = 'incorrect_jira_project.md'", "    template = 'incorrect_project.md'")
